@@ -163,7 +163,7 @@ def search_reachability(ctx, pdb, per_cell=False):
         for x in walk(root):
             if x[0] == "idx":
                 tables.add(x[1])
-    for root in [g_back, g_ret, retv] + nxt:
+    for root in [g_back, g_ret, retv] + nxt + [o.cond for o in obs] + [c for o in obs for c in o.pc]:
         parents = {}
         for x in walk(root):
             for ch in children(x):
